@@ -72,6 +72,31 @@ def gen(tier, rng):
         op = "ue" if z % 2 else "se"
         suffix = [rng.getrandbits(1) for _ in range(z % 256 % 40)] + [1] * 8
         cases.append(mk_case(rng, [(op, [0] * z + [1] + suffix)], z % 8, kinds[z % 4]))
+    # 3b. runs of consecutive Exp-Golomb reads whose codewords end exactly at / around a 32-, 64- or 128-bit boundary
+    # counted from the start of the run (lookahead windows carried from one read to the next), the last one long
+    for W in (32, 64, 128):
+        for d in (-2, -1, 0, 1, 2):
+            for k3 in ([5, 8, 12, 15, 16, 17, 20, 24, 28, 31] if tier == "quick" else range(2, 32)):
+                rem = W + d - (2 * k3 + 1)
+                if rem < 0:
+                    continue
+                ks = []
+                while rem > 0:
+                    # odd lengths 2k+1 <= rem; leave an even or zero remainder that can still be split
+                    kmax = min(31, (rem - 1) // 2)
+                    k = kmax if rem % 2 == 1 and rem <= 63 else rng.randrange(0, kmax + 1)
+                    if rem - (2 * k + 1) == 1 - 1 or rem - (2 * k + 1) >= 1:
+                        ks.append(k)
+                        rem -= 2 * k + 1
+                    else:
+                        ks.append(0)
+                        rem -= 1
+                for last_bit in (0, 1):
+                    items = [(rng.choice(["ue", "se"]), codeword_bits(k, rng.getrandbits(k) if k else 0)) for k in ks]
+                    suf = (rng.getrandbits(k3) & ~1) | last_bit
+                    items.append((rng.choice(["ue", "se"]), codeword_bits(k3, suf)))
+                    items.append(("ue", codeword_bits(2, 1)))
+                    cases.append(mk_case(rng, items, rng.choice([0, 0, 3, 5]), kinds[(W + d + k3) % 4]))
     # 4. truncation at every bit of a codeword (after one good read)
     for k in list(range(0, 9)) + [15, 16, 17, 30, 31]:
         s = rng.getrandbits(k) if k else 0
